@@ -32,6 +32,8 @@ SCOPE = {"quick": "all 700 datasets n<=3, m<=2 x 7 schemes; 300 sampled datasets
          "thorough": "all datasets n<=3, m<=3 (18 275) and all with exactly 4 elements, m<=2 (20 072) x 7 schemes; 25000 "
                      "sampled datasets n<=6, m<=5 x 25 schemes; 20000 random tables n<=7"}
 CHUNK = 1
+# every 4th case is run a second time with its datasets reached through a history (vlib.t2run._with_histories)
+VIA_EVERY = {"quick": 4, "thorough": 4}
 TIMEOUT = 600
 
 SCHEMES_EXH = [D.GENERIC_A, D.GENERIC_B, D.GENERIC_C, D.unifying(), D.pseudo(), D.induced(), D.extended()]
